@@ -46,7 +46,10 @@ def gen_case(rng):
     (millisecond placeholders), in datetime64[ns] and in the model (µs)."""
     day_ms = 86_400_000
     origin = dt.datetime(2016, 1, 1) + dt.timedelta(days=rng.randint(0, 1500))
-    style = rng.choice(["regular", "regular", "big-covers-many", "gaps", "midnight", "tiny", "overlap", "sparse"])
+    style = rng.choice(["regular", "regular", "big-covers-many", "gaps", "midnight", "tiny", "overlap", "sparse",
+                        "long-interval"])
+    if style == "long-interval":
+        return gen_long_interval(rng, origin)
     unit = rng.choice([1000, 60_000, 60_000, 600_000])        # typical file length scale (ms)
     span = rng.randint(6, 16) * unit                          # both filesets cover about the same span
     base = rng.choice([0, 3_600_000 * rng.randint(1, 20)])
@@ -69,7 +72,7 @@ def gen_case(rng):
             if style == "big-covers-many" and k == big:
                 length = rng.randint(6, 16) * unit               # one file covering many of the other set
             lo, hi = t, t + length
-            npts = rng.choice([1, 2, 2, 3, 4, 6])     # >= 1: collocate() raises ValueError on an empty dataset (see notes/C05.md)
+            npts = rng.choice([0, 1, 2, 2, 3, 4, 6])  # 0: a file without data points contributes nothing (fix 3262c37)
             if style == "sparse":
                 npts = 1
             pts = []
@@ -115,6 +118,56 @@ def gen_case(rng):
             "start_us": start_us, "end_us": end_us}
 
 
+def gen_long_interval(rng, origin):
+    """max_interval of a day or more: 6-hourly files whose partners lie many hours later (no direct
+    overlap of the coverages, but within max_interval) -- catches a widening that drops whole days
+    (`timedelta.seconds` for `total_seconds()`)"""
+    h = 3_600_000
+    site = rng.choice(SITES)
+    nfiles = rng.randint(2, 4)
+    lag_h = rng.choice([26, 30, 30, 40])               # partner files start that many hours later
+    mi_h = lag_h + rng.choice([2, 6])                  # 28 .. 46 h  (>= 1 day)
+    sets, ids = [[], []], [1000, 5000]
+    for k in range(2):
+        for f in range(nfiles):
+            lo = (6 * f + (lag_h if k == 1 else 0)) * h
+            hi = lo + 6 * h - 1
+            pts = []
+            for n in range(rng.randint(1, 3)):
+                j = rng.choice(JITTER)
+                pts.append({"id": ids[k], "t": lo + rng.randint(0, 6 * h - 1) if n else lo + (6 * h - 1) * (1 - k),
+                            "lat": site[0] + j[0], "lon": site[1] + j[1], "site": 0})
+                ids[k] += 1
+            ts = set()
+            pts = [p for p in pts if not (p["t"] in ts or ts.add(p["t"]))]
+            sets[k].append({"lo": lo, "hi": hi, "pts": pts, "delay": 0, "broken": False})
+    return {"op": "cf", "style": "long-interval", "origin_us": (origin - EPOCH) // US, "sets": sets,
+            "mi_us": mi_h * h * 1000, "dist_km": 150.0,
+            "start_us": -24 * h * 1000, "end_us": (6 * nfiles + lag_h + 24) * h * 1000}
+
+
+def big_payload_case(rng):
+    """one file pair whose single result holds several thousand collocations: the pickled dataset
+    is larger than the 64 KiB pipe buffer, so the worker's feeder thread blocks in the middle of
+    the object until the parent reads"""
+    origin = dt.datetime(2019, 5, 1)
+    n = 70
+    sets, ids = [], [1000, 5000]
+    for k in range(2):
+        files = []
+        for f in range(2):
+            lo = f * 100_000
+            pts = []
+            for i in range(n if f == 0 else 3):
+                j = JITTER[i % len(JITTER)]
+                pts.append({"id": ids[k], "t": lo + 10 * i + k, "lat": j[0] + 0.001 * i, "lon": j[1], "site": 0})
+                ids[k] += 1
+            files.append({"lo": lo, "hi": lo + 90_000, "pts": pts, "delay": 0, "broken": False})
+        sets.append(files)
+    return {"op": "cf", "style": "big-payload", "origin_us": (origin - EPOCH) // US, "sets": sets,
+            "mi_us": 5_000_000, "dist_km": 150.0, "start_us": -3_600_000_000, "end_us": 3_600_000_000}
+
+
 def result_spans(case, excl=None):
     """bundle=None: expected results (one per file pair with collocations) grouped by the time span
     (min, max primary time, µs since 1970) that names their output file"""
@@ -135,12 +188,17 @@ def would_collide(case):
     return any(len(v) > 1 for v in result_spans(case).values())
 
 
-def gen_config(rng, case, force=None, allow_collision=False):
+def gen_config(rng, case, force=None, allow_collision=False, stress=None):
     cfg = {"procs": rng.choice([1, 2, 2, 3, 4]), "bundle": rng.choice([None, "primary", "daily"]),
            "output": "fileset" if rng.random() < 0.25 else "memory",
            "skip": False, "broken": None, "put_delay": rng.choice([0, 0, 0.002]),
-           "alive_delay": rng.choice([0, 0.003, 0.01, 0.03]), "search": rng.random() < 0.5}
-    if rng.random() < 0.3:
+           "alive_delay": rng.choice([0, 0.003, 0.01, 0.03]), "search": rng.random() < 0.5,
+           # forms of the arguments: open period, strings, numbers, processes=None
+           "open": rng.choice([None, None, None, "start", "end", "both"]),
+           "mi_form": rng.choice(["td", "str", "num"]), "period_form": rng.choice(["dt", "dt", "str"])}
+    if rng.random() < 0.12:
+        cfg["procs"] = None
+    if stress if stress is not None else rng.random() < 0.3:
         # race stress: workers slower than the parent (each put arrives while the parent idles in its
         # `running` filter, whose is_alive() calls are slowed): the last worker's final put + exit fall
         # between the parent's `empty()` test and its liveness test with high probability
@@ -152,7 +210,9 @@ def gen_config(rng, case, force=None, allow_collision=False):
         cfg["skip"] = rng.random() < 0.8
     if force:
         cfg.update(force)
-    if cfg["output"] == "fileset" and cfg["bundle"] is None and not allow_collision and would_collide(case):
+    ocase = dict(case, start_us=None if cfg.get("open") in ("start", "both") else case["start_us"],
+                 end_us=None if cfg.get("open") in ("end", "both") else case["end_us"])
+    if cfg["output"] == "fileset" and cfg["bundle"] is None and not allow_collision and would_collide(ocase):
         # known finding output-name-collision: kept out of the ordinary stream (see collision_stream)
         cfg["bundle"] = rng.choice(["primary", "daily"])
     return cfg
@@ -178,11 +238,11 @@ def file_pair_pairs(case, fp, fs):
     mi, st, en, dist = case["mi_us"], case["start_us"], case["end_us"], case["dist_km"]
     for a in fp["pts"]:
         ta = a["t"] * 1000
-        if not (st <= ta <= en):
+        if not ((st is None or st <= ta) and (en is None or ta <= en)):
             continue
         for b in fs["pts"]:
             tb = b["t"] * 1000
-            if not (st <= tb <= en):
+            if not ((st is None or st <= tb) and (en is None or tb <= en)):
                 continue
             if abs(ta - tb) < mi:
                 d = chord_km(a["lat"], a["lon"], b["lat"], b["lon"])
@@ -249,14 +309,50 @@ def _alarm(signum, frame):
     raise CallTimeout()
 
 
-def run_real(case, cfg, sets, root):
+def period_args(case, cfg):
+    """start / end / max_interval in the form the configuration asks for (datetime, string, None;
+    timedelta, string, number of seconds) -- all denote exactly case[start_us/end_us/mi_us]"""
+    origin_us = case["origin_us"]
+
+    def bound(us):
+        if us is None:
+            return None
+        t = EPOCH + (origin_us + us) * US
+        return t.strftime("%Y-%m-%d %H:%M:%S.%f") if cfg.get("period_form") == "str" else t
+    mi_us = case["mi_us"]
+    form = cfg.get("mi_form", "td")
+    if form == "num" and mi_us % 500_000 == 0:
+        mi = mi_us // 1_000_000 if mi_us % 1_000_000 == 0 else mi_us / 1_000_000      # seconds (exact in binary)
+    elif form == "str" and mi_us % 1000 == 0:
+        mi = f"{mi_us // 3_600_000_000} h" if mi_us % 3_600_000_000 == 0 else \
+            f"{mi_us // 1_000_000} s" if mi_us % 1_000_000 == 0 else f"{mi_us // 1000} ms"
+    else:
+        mi = dt.timedelta(microseconds=mi_us)
+    return bound(case["start_us"]), bound(case["end_us"]), mi
+
+
+INFRA_PAT = None
+
+
+def infra_in_stderr(text):
+    """a worker died of an operating-system problem (disk full, out of memory, too many files...):
+    an infrastructure error of the host, never a violation"""
+    import re
+    global INFRA_PAT
+    if INFRA_PAT is None:
+        INFRA_PAT = re.compile(r"^(OSError|MemoryError|BlockingIOError|PermissionError|ConnectionError|BrokenPipeError|"
+                               r"EOFError|FileNotFoundError|_pickle\.PicklingError).*$|No space left on device|"
+                               r"Cannot allocate memory|Too many open files", re.M)
+    m = INFRA_PAT.search(text or "")
+    return m.group(0)[:200] if m else None
+
+
+def run_real(case, cfg, sets, root, timeout=None):
     """run the real collocate_filesets; returns dict(results=list, get_log=list, error=str|None)"""
     import typhon.collocations.collocator as CM
     from typhon.collocations import Collocator, Collocations
     from typhon.files import FileHandler
-    origin = EPOCH + case["origin_us"] * US
-    start = EPOCH + case["start_us"] * US + (origin - EPOCH)
-    end = EPOCH + case["end_us"] * US + (origin - EPOCH)
+    start, end, mi_arg = period_args(case, cfg)
     out = None
     if cfg["output"] == "fileset":
         od = tempfile.mkdtemp(dir=root, prefix="out")
@@ -269,11 +365,19 @@ def run_real(case, cfg, sets, root):
     W.GET_LOG.clear()
     W.PUT_DELAY["each"] = cfg.get("put_delay", 0)
     old_handler = signal.signal(signal.SIGALRM, _alarm)
-    signal.setitimer(signal.ITIMER_REAL, CALL_TIMEOUT)
+    signal.setitimer(signal.ITIMER_REAL, timeout or CALL_TIMEOUT)
+    # the workers' stderr (tracebacks of crashed processes) goes to a file: it tells an
+    # infrastructure problem (OSError, MemoryError) from a defect, and keeps the output clean
+    import sys
+    sys.stderr.flush()
+    errpath = os.path.join(root, f"stderr{len(os.listdir(root))}.txt")
+    errfd = os.open(errpath, os.O_WRONLY | os.O_CREAT | os.O_TRUNC)
+    saved2 = os.dup(2)
+    os.dup2(errfd, 2)
     res = {"results": [], "error": None, "out": out, "start": start, "end": end}
     try:
         kw = dict(start=start, end=end, processes=cfg["procs"], bundle=cfg["bundle"], skip_file_errors=cfg["skip"],
-                  max_interval=dt.timedelta(microseconds=case["mi_us"]), max_distance=case["dist_km"])
+                  max_interval=mi_arg, max_distance=case["dist_km"])
         if out is not None and cfg.get("search"):
             # Collocations.search: collocate_filesets(output=self) consumed internally; what it
             # yielded is what the parent got from the queue with a result that is not None
@@ -289,9 +393,19 @@ def run_real(case, cfg, sets, root):
         from typhon.files.fileset import NoFilesError
         res["error"] = "no-files" if isinstance(e, NoFilesError) else f"{type(e).__name__}"
         res["error_text"] = str(e)[:200]
+        if isinstance(e, (OSError, MemoryError)):
+            res["infra"] = f"{type(e).__name__}: {e}"[:200]
     finally:
         signal.setitimer(signal.ITIMER_REAL, 0)
         signal.signal(signal.SIGALRM, old_handler)
+        sys.stderr.flush()
+        os.dup2(saved2, 2)
+        os.close(saved2)
+        os.close(errfd)
+        try:
+            res["stderr"] = open(errpath, errors="replace").read()[-20000:]
+        except OSError:
+            res["stderr"] = ""
         CM.Queue, CM.Process = old_q, old_p
         W.PUT_DELAY["each"] = 0
         W.ALIVE_DELAY["s"] = 0
@@ -323,6 +437,11 @@ def check_run(ck, case, cfg, scratch, use_model=True):
     if getattr(ck, "hung", False):
         return False
     root = tempfile.mkdtemp(dir=scratch)
+    case = dict(case)
+    if cfg.get("open") in ("start", "both"):
+        case["start_us"] = None         # open period: start=None
+    if cfg.get("open") in ("end", "both"):
+        case["end_us"] = None
     full = dict(case, cfg=cfg)
     try:
         sets, index = build_filesets(case, cfg, root)
@@ -330,8 +449,8 @@ def check_run(ck, case, cfg, scratch, use_model=True):
         order = [sorted_files(case, 0), sorted_files(case, 1)]          # position in find order -> file index
         pos = [{i: n for n, i in enumerate(order[k])} for k in range(2)]
         # ---- real match (public API), compared with the model's restated match
-        start = EPOCH + (origin_us + case["start_us"]) * US
-        end = EPOCH + (origin_us + case["end_us"]) * US
+        start = None if case["start_us"] is None else EPOCH + (origin_us + case["start_us"]) * US
+        end = None if case["end_us"] is None else EPOCH + (origin_us + case["end_us"]) * US
         mi = dt.timedelta(microseconds=case["mi_us"])
         from typhon.files.fileset import NoFilesError
         try:
@@ -354,11 +473,17 @@ def check_run(ck, case, cfg, scratch, use_model=True):
         # ---- real run
         r = run_real(case, cfg, sets, root)
         if r["error"] == "timeout":
-            r = run_real(case, cfg, sets, root)
+            # a loaded host is an infrastructure matter: a hang counts only if the same case does
+            # not finish either on a second attempt with twice the time
+            ck.notes.append(f"one call exceeded {CALL_TIMEOUT} s and was repeated")
+            r = run_real(case, cfg, sets, root, timeout=2 * CALL_TIMEOUT)
             if r["error"] == "timeout":
-                ck.violation("hang", f"collocate_filesets did not finish within {CALL_TIMEOUT} s (twice)", full)
+                ck.violation("hang", f"collocate_filesets did not finish within {CALL_TIMEOUT} s nor, repeated, within {2 * CALL_TIMEOUT} s", full)
                 ck.hung = True          # decisive: stop exploring (every further run would cost minutes)
                 return True
+        infra = r.get("infra") or infra_in_stderr(r.get("stderr"))
+        if infra:
+            raise vlib.InfraError(f"host problem while running collocate_filesets: {infra}")
         crash_expected = cfg["broken"] is not None and not cfg["skip"] and \
             any((cfg["broken"][0] == 0 and p == cfg["broken"][1]) or (cfg["broken"][0] == 1 and cfg["broken"][1] in ss)
                 for p, ss in real_matches)
@@ -388,7 +513,7 @@ def check_run(ck, case, cfg, scratch, use_model=True):
                     else:
                         names.append(item)
                 out = r["out"]
-                for f in out.find(start - dt.timedelta(days=3), end + dt.timedelta(days=3), no_files_error=False):
+                for f in out.find(dt.datetime(2000, 1, 1), dt.datetime(2100, 1, 1), no_files_error=False):
                     ds = out.read(f)
                     try:
                         got += ds_pairs(ds)
@@ -458,7 +583,9 @@ def check_run(ck, case, cfg, scratch, use_model=True):
         # (a) match
         l1 = " ".join(f"{origin_us + case['sets'][0][i]['lo'] * 1000} {origin_us + case['sets'][0][i]['hi'] * 1000}" for i in order[0])
         l2 = " ".join(f"{origin_us + case['sets'][1][i]['lo'] * 1000} {origin_us + case['sets'][1][i]['hi'] * 1000}" for i in order[1])
-        lines.append(f"match {case['mi_us']} {origin_us + case['start_us']} {origin_us + case['end_us']} {len(order[0])} {l1} {len(order[1])} {l2}")
+        st_tok = "-" if case["start_us"] is None else str(origin_us + case["start_us"])
+        en_tok = "-" if case["end_us"] is None else str(origin_us + case["end_us"])
+        lines.append(f"match {case['mi_us']} {st_tok} {en_tok} {len(order[0])} {l1} {len(order[1])} {l2}")
         # (b) pipeline driven by the real matches and the oracle's per-file-pair results
         rid, rlist, rtoks = {}, [], []
         for p, ss in real_matches:
@@ -619,7 +746,7 @@ def parent_schedules(ck, n_sched):
         return
     out = ck.driver(lines)
     for line, o, counts in zip(lines, out, expect):
-        ck.count("parent-schedule")
+        ck.case(kind="parent-schedule")
         ok = o.startswith("pc=done y=")
         if ok:
             ys = o[len("pc=done y="):].split()
@@ -643,7 +770,7 @@ def make_check():
                  "multiprocessing semantics are modelled, not verified: Queue = bounded semaphore + per-process feeder buffer + FIFO pipe, "
                  "empty() sees the pipe, a process exits only after its feeder flushed, is_alive() is monotone",
                  "the per-file-pair collocation (Collocator.collocate) is opaque in the model; its pair-level correctness is property C04 "
-                 "(hypothesis `collContract` of C05_total)",
+                 "(hypothesis `hcoll` of C05_total / C05_total_skip)",
                  "pickle-based file handlers of the harness; xarray concat/merge inside concat_collocations are exercised, not verified"],
         assumptions=["every data point is stored in exactly one file whose name-derived coverage contains its time; point labels (ids) are unique",
                      "no claim about the total when a worker crashes (skip_file_errors=False and an unreadable file)",
@@ -669,7 +796,8 @@ def explore(ck, n_pairs, runs_per_pair, scratch, use_model=True):
             break                       # enough failing inputs; every further run costs seconds
         case = gen_case(rng)
         for k in range(runs_per_pair):
-            cfg = gen_config(rng, case)
+            ck.run_no = getattr(ck, "run_no", 0) + 1
+            cfg = gen_config(rng, case, stress=(ck.run_no % 3 == 0))      # race stress in every third run
             check_run(ck, case, cfg, scratch, use_model)
         # separate low-rate stream for the known finding output-name-collision (thorough tier only;
         # the quick tier has the corpus witness)
@@ -696,6 +824,12 @@ def main():
             run_corpus_case(ck, c, scratch, use_model)
         if use_model:
             parent_schedules(ck, ck.budget(150, 3000))
+        # fixed cases of every run: a result larger than the pipe buffer; day-long max_interval
+        big = big_payload_case(ck.rng)
+        for cfg in ({"procs": 2, "bundle": None}, {"procs": 1, "bundle": "primary", "put_delay": 0.12, "alive_delay": 0.04}):
+            check_run(ck, big, dict(DEFAULT_CFG, **cfg), scratch, use_model)
+        li = gen_long_interval(ck.rng, dt.datetime(2017, 3, 1))
+        check_run(ck, li, gen_config(ck.rng, li, force={"broken": None, "skip": False, "open": None}, stress=False), scratch, use_model)
         explore(ck, ck.budget(15, 80), 2 if ck.tier == "quick" else 5, scratch, use_model)
         if ck.broken() and not ck.violations:
             # failing-input search on the real code (oracle only) with the larger budget
@@ -706,13 +840,16 @@ def main():
     ck.finish()
 
 
+DEFAULT_CFG = {"procs": 1, "bundle": None, "output": "memory", "skip": False, "broken": None, "put_delay": 0}
+
+
 def run_corpus_case(ck, c, scratch, use_model=True):
     if c.get("op") != "cf":
         return
     case = {k: v for k, v in c.items() if k != "cfg" and k != "cfgs"}
     cfgs = c.get("cfgs") or [c["cfg"]]
     for cfg in cfgs:
-        cfg = dict({"procs": 1, "bundle": None, "output": "memory", "skip": False, "broken": None, "put_delay": 0}, **cfg)
+        cfg = dict(DEFAULT_CFG, **cfg)
         before = len(ck.violations)
         check_run(ck, case, cfg, scratch, use_model)
         exp = cfg.get("expect")
